@@ -927,7 +927,7 @@ pub fn property(tier: Tier) -> Property {
         cfg.hist.gen.max_fv = 6;
         cfg.hist.gen.max_depth = 2;
         cfg.hist.gen.ops = Some(vec!["v", "f2", "g3", "c0", "p", "w", "lam"]);
-        cfg.hist.weights = [1, 1, 4, 3, 2, 1, 2, 1, 6, 1, 1, 2];
+        cfg.hist.weights = [1, 1, 4, 3, 2, 1, 2, 1, 6, 1, 1, 2, 2];
         stages.push(Box::new(Stage {
             name: "explain-core-wide",
             source: random(move || mixed_strategy(cfg.clone()), tier.pick(1500, 30_000)),
